@@ -46,3 +46,21 @@ def c04_clause_dimensions_replace_declarator_dimensions(case, what):
             if d["name"] == m.group(2) and e["cdims"] is not None and d["dims"] is not None:
                 return True
     return False
+
+
+@known_predicate
+def c04_import_list_of_three_names(case, what):
+    """C04-F4: `import P.{a, b, c}` - `import_list.children[::2]` takes the nested list's text "b,c" as one
+    name.  Recognised: the oracle message is about the imports of a class that has such an import clause
+    (also the model/implementation disagreement on such a case, once the listener is fixed)."""
+    if "src" not in case:
+        return False
+    m = re.match(r"imports of class (\S+)$", what)
+    if m:
+        cname = m.group(1).split(".")[-1]
+        return any(e["t"] == "imp" and e["form"] == "list" and len(e["names"]) >= 3
+                   for c in _classes_named(case["src"], cname) for _, lst in G.elem_lists(c) for e in lst)
+    if what == "disagreement:asm.run" and case.get("stream") == "imp3":
+        return any(e["t"] == "imp" and e["form"] == "list" and len(e["names"]) >= 3
+                   for c in G.all_classes(case["src"]) for _, lst in G.elem_lists(c) for e in lst)
+    return False
